@@ -157,6 +157,8 @@ type Options struct {
 	IdleTimeout time.Duration
 	// TimeAction adds the choice "@time" (let virtual time pass although operations are pending) at every step.
 	TimeAction bool
+	// BeforeExec is called with the prefix about to be executed (crash checkpointing).
+	BeforeExec func(prefix []string)
 	// TimeQuantum bounds how long one "@time" step lets operations stay pending (a stall); 0 = idle timeout.
 	TimeQuantum time.Duration
 	// LockPoints makes every vsync Lock/RLock of a registered goroutine a scheduling point (FINE).
@@ -628,6 +630,9 @@ type work struct {
 func Explore(t *testing.T, sc Scenario, opt Options, check func(x *Exec)) Stats {
 	var st Stats
 	if opt.Prefix != nil {
+		if opt.BeforeExec != nil {
+			opt.BeforeExec(opt.Prefix)
+		}
 		x := runOne(t, &sc, &opt, opt.Prefix)
 		st.Execs, st.Steps = 1, int64(len(x.Steps))
 		if x.Diverged {
@@ -648,6 +653,9 @@ func Explore(t *testing.T, sc Scenario, opt Options, check func(x *Exec)) Stats 
 			break
 		}
 		var x *Exec
+		if opt.BeforeExec != nil {
+			opt.BeforeExec(w.prefix)
+		}
 		for try := 0; try < 6; try++ {
 			x = runOne(t, &sc, &opt, w.prefix)
 			if !x.Diverged {
